@@ -50,6 +50,10 @@ Definition bcond_holds (c : bcond) (a b : Z) : bool :=
   match c with Ceq => a =? b | Cne => negb (a =? b) | Clt => a <? b | Cge => b <=? a end.
 Definition binop_val (o : binop) (a b : Z) : Z := match o with OAdd => a + b | OSub => a - b end.
 
+(* the least k >= 0 with k not in l: it is among 0 .. length l *)
+Definition least_unused (l : list Z) : option Z :=
+  List.find (fun k => negb (set_mem k l)) (map Z.of_nat (seq 0 (S (List.length l)))).
+
 Definition step (i : instr) (st : state) (pc : Z) : sres :=
   let fault k := Stop (Fault k pc) in
   let open := Stop (Unspec pc) in
@@ -151,8 +155,13 @@ Definition step (i : instr) (st : state) (pc : Z) : sres :=
           else if Zlen (um st) <=? q then fault FUnitRange      (* q >= capacity *)
           else match nth_error (um st) (Z.to_nat q) with
                | None => fault FUnitRange
-               | Some true => fault FAlloc
-               | Some false => next (with_um st (sset (Z.to_nat q) true (um st)))
+               | Some (Some _) => fault FAlloc
+               | Some None =>
+                   (* the least physical qubit that is not in use is mapped and marked in use *)
+                   match least_unused (used st) with
+                   | Some p => next (with_um st (sset (Z.to_nat q) (Some p) (um st)) (set_add p (used st)))
+                   | None => fault FBook
+                   end
                end
       end
   | IQfree r =>
@@ -163,8 +172,12 @@ Definition step (i : instr) (st : state) (pc : Z) : sres :=
           else if Zlen (um st) <=? q then fault FIndex
           else match nth_error (um st) (Z.to_nat q) with
                | None => fault FIndex
-               | Some false => fault FFree
-               | Some true => next (with_um st (sset (Z.to_nat q) false (um st)))
+               | Some None => fault FFree
+               | Some (Some p) =>
+                   (* the mapping is removed and the physical qubit released *)
+                   if set_mem p (used st)
+                   then next (with_um st (sset (Z.to_nat q) None (um st)) (set_remove p (used st)))
+                   else fault FBook
                end
       end
   | IWaitAll a so eo =>
